@@ -517,6 +517,10 @@ def set_order(repo, chk):
                     chk.unsure('C09.5', 'R10', f.site(n), ast.unparse(p)[:100], 'an array is filled in set-iteration order; whether that order is observable depends on how the array is consumed (element-wise operations and commutative scatter updates are order-blind), which is not classified')
                 elif isinstance(n, ast.GeneratorExp) and isinstance(p, ast.Call) and isinstance(p.func, ast.Attribute) and p.func.attr == 'join':
                     chk.bad('C09.5', 'R10', f.site(n), ast.unparse(p)[:100], 'a string is joined in set order')
+                elif isinstance(par.get(n), ast.Assign) and len(par.get(n).targets) == 1 and isinstance(par.get(n).targets[0], ast.Name) and \
+                        _only_order_blind_uses(f, par, par.get(n).targets[0].id, par.get(n)):
+                    chk.unsure('C09.5', 'R10', f.site(n), ast.unparse(n)[:120], f'a list is built by iterating the set `{ast.unparse(g.iter)[:50]}`, but it is only unpacked into / consumed by operations that do not obviously depend on its order '
+                               '(scatter maximum / sum, set, sorted): whether the order is observable is not decided')
                 else:
                     chk.bad('C09.5', 'R10', f.site(n), ast.unparse(n)[:120], f'a list/dict is built by iterating the set `{ast.unparse(g.iter)[:50]}`: its order differs between processes (PYTHONHASHSEED) and reaches column order / candidate order (wrap the set in sorted())')
             elif isinstance(n, ast.Call) and ((isinstance(n.func, ast.Name) and n.func.id in ('sorted', 'min', 'max')) or (f.module.dotted(n.func) or '') in ('heapq.nsmallest', 'heapq.nlargest')) \
@@ -531,3 +535,54 @@ def set_order(repo, chk):
                            f'`{ast.unparse(n)}` turns a set into a sequence: the order differs between processes (PYTHONHASHSEED) and becomes a column / candidate order (use sorted())')
     chk.analysed['set_iteration_sites_on_ranking_path'] = n_sites
     chk.require_count('set-iteration sites on the ranking path', n_sites, 4)
+
+
+ORDER_BLIND_CONSUMERS = {'set', 'frozenset', 'sorted', 'sum', 'min', 'max', 'any', 'all', 'len', 'Counter', 'collections.Counter', 'zip', 'numpy.maximum.at', 'numpy.add.at', 'numpy.minimum.at',
+                         'numpy.asarray', 'numpy.array', 'numpy.max', 'numpy.min', 'numpy.sum', 'numpy.unique'}
+
+
+def _only_order_blind_uses(f, par, name, definition):
+    """every later use of the local `name` hands it (possibly unpacked with *) to an order-blind consumer, or tests it for emptiness; values derived
+    from it by zip(*name) are followed one step (indices, ranks = zip(*slots); np.maximum.at(M, indices, ranks))"""
+    uses = [x for x in own_nodes(f.node) if isinstance(x, ast.Name) and x.id == name and isinstance(x.ctx, ast.Load)]
+    if not uses:
+        return False
+    follow = []
+    for u in uses:
+        p = par.get(u)
+        if isinstance(p, ast.Starred):
+            p = par.get(p)
+        if isinstance(p, ast.UnaryOp) and isinstance(p.op, ast.Not):
+            continue
+        if isinstance(p, (ast.If, ast.While)) and p.test is u:
+            continue
+        # map(g, name) / filter(g, name) / (h(x) for x in name): a lazy stage; what matters is who consumes it
+        hops = 0
+        while isinstance(p, ast.Call) and (f.module.dotted(p.func) or ast.unparse(p.func)) in ('map', 'filter') and hops < 3:
+            u, p = p, par.get(p)
+            hops += 1
+        if isinstance(p, ast.For) and p.iter is u:
+            # a loop whose body only feeds commutative sinks: x.add(..) / x.update(..) / x.discard(..)
+            if all(isinstance(b, ast.Expr) and isinstance(b.value, ast.Call) and isinstance(b.value.func, ast.Attribute) and b.value.func.attr in ('add', 'update', 'discard') for b in p.body) and not p.orelse:
+                continue
+            return False
+        if isinstance(p, ast.Call):
+            d = f.module.dotted(p.func) or ast.unparse(p.func)
+            if d not in ORDER_BLIND_CONSUMERS:
+                return False
+            if d == 'zip':
+                st = par.get(p)
+                if isinstance(st, ast.Assign) and len(st.targets) == 1 and isinstance(st.targets[0], ast.Tuple) and all(isinstance(e, ast.Name) for e in st.targets[0].elts):
+                    follow += [(e.id, st) for e in st.targets[0].elts]
+                else:
+                    return False
+            continue
+        return False
+    for nm, st in follow:
+        for u in [x for x in own_nodes(f.node) if isinstance(x, ast.Name) and x.id == nm and isinstance(x.ctx, ast.Load)]:
+            p = par.get(u)
+            while isinstance(p, ast.Call) and (f.module.dotted(p.func) or '') in ('numpy.asarray', 'numpy.array', 'list', 'tuple') :
+                u, p = p, par.get(p)
+            if not (isinstance(p, ast.Call) and (f.module.dotted(p.func) or '') in ('numpy.maximum.at', 'numpy.add.at', 'numpy.minimum.at')):
+                return False
+    return True
